@@ -100,15 +100,31 @@ def tpl_reject(size, m, pfx, locked, closed, notcoro, c, dup, _twin=False):
             if m == 3:
                 return p_.doublestarmap(fn, [], num_concurrent=1)
             return p_.start(0)
+        failed_close = False
         try:
             prefix(it)
+            if closed == 2:
+                # a close that *fails*: a task ended with an exception, gather_and_close() re-raises it - the pool is
+                # left locked (closing locks first) but not closed; only unlock() may re-open it
+                run = [x for x in w.W if x["state"] == "run"]
+                if not run:
+                    return 0
+                it.fail(run[0]["wid"])
+                w.drain()
+                g = it.gather_and_close(False)
+                w.settle()
+                if task_outcome(g)[0] != "exc":
+                    return 0
+                locked = 1
+                closed = 0
+                failed_close = True
             if closed:
                 w.drain()
                 g = it.gather_and_close(True)
                 w.settle()
                 if task_outcome(g)[0] != "ok":
                     return 0 if size == 0 else 911   # a 0-sized pool with pending requests can never be closed
-            if locked:
+            if locked and not failed_close:
                 pool.lock()
                 pool.lock()
                 if not pool.is_locked:
@@ -259,12 +275,12 @@ def tpl_size(size, v, k, ctor, half=0, _twin=False):
 
 def families(tier):
     P = ["size", "m", "pfx", "locked", "closed", "notcoro", "c", "dup"]
-    pre = ["size >= 0", "0 <= m <= 4", "0 <= pfx <= 4", "0 <= locked <= 1", "0 <= closed <= 1", "0 <= notcoro <= 1", "0 <= dup <= 1"]
+    pre = ["size >= 0", "0 <= m <= 4", "0 <= pfx <= 4", "0 <= locked <= 1", "0 <= closed <= 2", "0 <= notcoro <= 1", "0 <= dup <= 1", "closed <= 1 or pfx >= 1"]
     if tier != "thorough":
         pre += ["c <= 2"]
     return [
         Family(name="reject", fn="tpl_reject", params=P, pre=pre,
-               parts=parts_product(m=range(5), pfx=range(5), closed=(0, 1)),
+               parts=parts_product(m=range(5), pfx=range(5), closed=(0, 1)) + parts_product(m=range(5), pfx=(1, 2, 3, 4), closed=(2,)),
                twin_pre=["m == 1", "pfx == 1", "closed == 0", "locked == 1"], twin_args=[2, 1, 1, 1, 0, 0, 1, 0]),
         Family(name="size", fn="tpl_size", params=["size", "v", "k", "ctor", "half"],
                pre=["size >= 0", "0 <= k <= 3", "0 <= ctor <= 1", "0 <= half <= 2", "half == 0 or (-9 <= v <= 9)", "half != 2 or v == -1"],
